@@ -318,6 +318,90 @@ R.add('L18.3', l183, lambda tier: ([dict(k=1, cuts=1, maxlen=2), dict(k=2, cuts=
       bounds='k<=2 frames, payload <= 2 bytes, <= 1 cut (thorough: k<=3, payload <= 3, <= 2 cuts)')
 
 
+# ------------------------------------------------------------------ L18.5 large frames split inside their header
+def l185(form):
+    """a masked client frame with a 16-bit or 64-bit extended length arrives in pieces: the header (2 + 2|8
+    + 4 bytes) and the first payload bytes are cut at symbolic positions; as long as the frame is incomplete
+    the handler must neither raise nor deliver anything (the payload itself is never completed here - it is
+    opaque and large - so only the header logic is exercised)"""
+    ep = Endpoint()
+    buf = ws.WebSocketTemporaryRingBuffer(FakeRequest())
+    handler = ws.WebSocketTemporaryHandler(('h', 1), {}, {}, buf, ep)
+    opi = choose(3, 'op')
+    if form == 16:
+        L = symint('plen', 126, 65535)
+        ext = rope.field(L, 2)
+        len7 = 126
+    else:
+        L = symint('plen', 65536, 2 ** 40)
+        ext = rope.field(L, 8)
+        len7 = 127
+    key = rope.symbytes('key', 4)
+    head = bytes([0x80 | SEG_OPVALS[opi], 0x80 | len7]) + ext + key
+    npay = choose(4, 'payload_bytes_present')          # far fewer than the declared length
+    stream = head + (rope.symbytes('pay', npay) if npay else b'')
+    total = core.concrete(rope.sx_len(stream))
+    c1 = symint('cut0', 0, total)
+    c2 = symint('cut1', 0, total)
+    assume(c2 >= c1)
+    pos = [0, c1, c2, total]
+    for a, b in zip(pos, pos[1:]):
+        if bool(b > a):
+            try:
+                handler(stream[a:b])
+            except Exception as ex:
+                core.fail('handler raised on a partially received large frame', error=repr(ex), form=form)
+    check(len(ep.log) == 0, 'an incomplete frame is not delivered')
+    check(buf.buf == stream, 'the bytes of an incomplete frame stay buffered, untouched')
+
+
+def replay_l185(cfg, m):
+    import struct
+    c = real('mpgameserver.http_server')
+
+    class Ep:
+        log = []
+
+        def callback(self, h, op, p):
+            Ep.log.append(op)
+
+    class Req:
+        chunked = 1
+
+        def write(self, d):
+            pass
+    Ep.log = []
+    buf = c.WebSocketTemporaryRingBuffer(Req())
+    handler = c.WebSocketTemporaryHandler(('h', 1), {}, {}, buf, Ep())
+
+    def ch(p):
+        for k, v in m.items():
+            if k.startswith(p + '#'):
+                return v
+        return 0
+    L = m.get('plen', 126)
+    key = bytes(m.get('key[%d]' % i, 0) for i in range(4))
+    if cfg['form'] == 16:
+        head = bytes([0x80 | SEG_OPVALS[ch('op')], 0x80 | 126]) + struct.pack('!H', L) + key
+    else:
+        head = bytes([0x80 | SEG_OPVALS[ch('op')], 0x80 | 127]) + struct.pack('!Q', L) + key
+    stream = head + bytes(m.get('pay[%d]' % i, 0) for i in range(ch('payload_bytes_present')))
+    pos = [0, m.get('cut0', 0), m.get('cut1', 0), len(stream)]
+    try:
+        for a, b in zip(pos, pos[1:]):
+            if b > a:
+                handler(stream[a:b])
+    except Exception as e:
+        return True, 'handler raised %r with cuts %s of a %d-byte prefix of a frame announcing %d payload bytes' % (e, pos, len(stream), L)
+    return bool(Ep.log) or buf.buf != stream, 'delivered=%d' % len(Ep.log)
+
+
+R.add('L18.5', l185, [dict(form=16), dict(form=64)], replay=replay_l185,
+      desc='frames with 16-bit / 64-bit extended length received in pieces cut inside the header: no exception, nothing delivered early',
+      expect=['an incomplete frame is not delivered', 'the bytes of an incomplete frame stay buffered, untouched'],
+      bounds='declared length 126..65535 / 65536..2^40 (symbolic), 0..3 payload bytes present, 2 symbolic cuts')
+
+
 # ------------------------------------------------------------------ L18.4 writer
 def l184():
     f, opi = sym_frame(plen_hi=200000)
